@@ -64,6 +64,25 @@ func C04(c *Ctx) int {
 		Job: JobOpts{Perturb: 9, HoldPoints: []string{"xor.report", "flow.action", "flow.flowtrace", "tracer.take"}}}); err != nil {
 		c.Infraf("%v", err)
 	}
+	// level M: two-phase probe, probing table, report-before-second-request reschedule, over every interleaving
+	{
+		var fam []*prog.Program
+		maxK := 2
+		if !c.Quick() {
+			maxK = 3
+		}
+		for k := 1; k <= maxK; k++ {
+			for _, dpos := range []int{-1, 0, k} {
+				for tokens := 1; tokens <= 2; tokens++ {
+					fam = append(fam, gen.GatewayTable("xor", k, dpos, tokens, -1))
+				}
+			}
+		}
+		gen.MergedArrival, gen.BurstArrival = true, true
+		fam = append(fam, gen.GatewayTable("xor", 2, 0, 2, -1), gen.GatewayTable("xor", 1, -1, 2, -1))
+		gen.MergedArrival, gen.BurstArrival = false, false
+		c.EngineRound(fam, EngineOpts{Label: "exclusive", MaxFlows: 10, NWaiters: 0, RunsPer: 2})
+	}
 	c.Extra["programs"] = len(ps) + len(loops) + len(bursts)
 	return c.Finish("model_checking", "exclusive gateways with 1..4 conditional flows, default absent or at every list position, 1..3 tokens arriving concurrently; TLC enumerates every truth assignment (one decision task writes all condition variables) and every answer order; each schedule replayed on the real engine, validated by TokenGameTrace (branch task requested, no-flow error naming the gateway, independent pass-through)", !c.Quick(), fs)
 }
